@@ -2,6 +2,7 @@ SPECIFICATION Spec
 CONSTANTS KnownDevs = {}
 INVARIANTS
   C05_NoDatapathResidue
+  C05_NoUp4Residue
   C05_SessionRecordsForgotten
   C05_AddressesReturned
   C05_TeidsReturned
